@@ -208,13 +208,10 @@ pub(crate) fn decrypt_kdbx3(
     let version = DatabaseVersion::parse(data)?;
     let header = parse_outer_header(data)?;
 
-    // Derive stream key for decrypting inner protected values and set up decryption context
-    let stream_key = calculate_sha256(&[header.protected_stream_key.as_ref()])
-        .map_err(|e| DatabaseIntegrityError::from(e))?;
-
+    // Set up decryption context for the inner protected values
     let inner_decryptor = header
         .inner_cipher
-        .get_cipher(&stream_key)
+        .get_cipher(&header.protected_stream_key)
         .map_err(|e| DatabaseIntegrityError::from(e))?;
 
     let config = DatabaseConfig {
